@@ -5262,13 +5262,17 @@ class Frame(ContainerOperand):
         if post.dtype == DTYPE_FLOAT_DEFAULT:
             raise RuntimeError('cannot produce loc representation from NaNs')
 
+        labels = self.index.values[post] if axis == 0 else self.columns.values[post]
+        if labels.ndim == 2: # labels of an IndexHierarchy: one tuple per position
+            labels = array2d_to_array1d(labels)
+
         # post has been made immutable so Series will own
         if axis == 0:
             return Series(
-                    self.index.values[post],
+                    labels,
                     index=immutable_index_filter(self._columns)
                     )
-        return Series(self.columns.values[post], index=self._index)
+        return Series(labels, index=self._index)
 
     @doc_inject(selector='argminmax')
     def iloc_min(self, *,
@@ -5306,12 +5310,16 @@ class Frame(ContainerOperand):
         if post.dtype == DTYPE_FLOAT_DEFAULT:
             raise RuntimeError('cannot produce loc representation from NaNs')
 
+        labels = self.index.values[post] if axis == 0 else self.columns.values[post]
+        if labels.ndim == 2: # labels of an IndexHierarchy: one tuple per position
+            labels = array2d_to_array1d(labels)
+
         if axis == 0:
             return Series(
-                    self.index.values[post],
+                    labels,
                     index=immutable_index_filter(self._columns)
                     )
-        return Series(self.columns.values[post], index=self._index)
+        return Series(labels, index=self._index)
 
     @doc_inject(selector='argminmax')
     def iloc_max(self, *,
